@@ -100,7 +100,7 @@ func mutants(n *node.Node, base *blockchain.Block, o node.BlockOpts, r *rand.Ran
 	})
 	// timestamp: slot of the last block / earlier slot / future slot, each signed by the
 	// generator that owns that slot (so the slot-owner rule is not what fails)
-	slotMut := func(class string, slotsAhead int) {
+	slotMutAt := func(class string, slotsAhead int, offset uint32) {
 		add(class, true, func(b *blockchain.Block) bool {
 			tslot := n.Slot.GetSlotNumber(tip.Timestamp)
 			slot := tslot + slotsAhead
@@ -116,7 +116,10 @@ func mutants(n *node.Node, base *blockchain.Block, o node.BlockOpts, r *rand.Ran
 			if g == nil {
 				return false
 			}
-			b.Header.Timestamp = n.Slot.GetSlotTime(slot)
+			b.Header.Timestamp = n.Slot.GetSlotTime(slot) + offset
+			if offset > 0 && (n.Slot.GetSlotNumber(b.Header.Timestamp) != slot || b.Header.Timestamp <= tip.Timestamp) {
+				return false
+			}
 			b.Header.GeneratorAddress = g.Address
 			b.Header.MaxHeightGenerated = n.GenHist[string(g.Address)]
 			if b.Header.MaxHeightGenerated >= b.Header.Height {
@@ -126,8 +129,11 @@ func mutants(n *node.Node, base *blockchain.Block, o node.BlockOpts, r *rand.Ran
 			return true
 		})
 	}
+	slotMut := func(class string, slotsAhead int) { slotMutAt(class, slotsAhead, 0) }
 	if tip.Version == 2 {
 		slotMut("timestamp:same-slot-as-last-block", 0)
+		// a later second of the tip's own slot: the timestamp grows, the slot does not
+		slotMutAt("timestamp:later-second-of-last-block-slot", 0, tip.Timestamp-n.Slot.GetSlotTime(n.Slot.GetSlotNumber(tip.Timestamp))+1+uint32(r.Intn(int(n.Cfg.BlockTime)-1)))
 		slotMut("timestamp:earlier-slot", -1-r.Intn(3))
 	}
 	// far enough ahead that it is still a future slot when the mutant is judged, however loaded
@@ -401,6 +407,147 @@ func errClass(err error) string {
 	return s
 }
 
+// tieBreakCase: the tip was received after its own slot; a sibling of the tip from the following
+// slot arrives inside its own (real, current) slot, so the fork choice takes the tie-break
+// branch. The sibling violates one static rule: it must be refused with the tip still in place.
+func tieBreakCase(k *mon.Case) {
+	r := k.R
+	g := node.EqualGenesis(2 + r.Intn(5))
+	if r.Intn(3) == 0 {
+		g = node.RandomChange(r, 7, 6)
+	}
+	// block time so large that the real current slot lasts for hours (see w_c04)
+	cfg := node.Config{Genesis: g, Universe: 7, BatchSize: 6, MaxBlockCache: 8 + r.Intn(20), KeepEventsForHeights: []int{-1, 0, 3, 300}[r.Intn(4)], BlockTime: 100000}
+	pre := 3 + r.Intn(16)
+	cfg.GenesisTimestamp = uint32(time.Now().Unix()) - uint32(pre+1)*cfg.BlockTime - cfg.BlockTime/2
+	n, err := node.New(cfg)
+	if err != nil {
+		k.Inconclusive("node-init:" + err.Error())
+		return
+	}
+	defer n.Close()
+	for i := 0; i < pre; i++ {
+		var txs []*blockchain.Transaction
+		for j := r.Intn(3); j > 0; j-- {
+			txs = append(txs, n.NewTx(n.Universe[r.Intn(len(n.Universe))], uint64(100*i+j), 5000, node.TxVerifyOK, node.TxExecOK, r.Intn(20)))
+		}
+		b, err := n.NextBlock(node.BlockOpts{Txs: txs})
+		if err != nil {
+			k.Inconclusive("history-build")
+			return
+		}
+		if err := n.Apply(b); err != nil {
+			k.Inconclusive("history-valid-block-rejected:" + errClass(err))
+			return
+		}
+	}
+	tip := n.Tip()
+	if n.Slot.GetSlotNumber(uint32(time.Now().Unix())) != n.Slot.GetSlotNumber(tip.Header.Timestamp)+1 {
+		k.Inconclusive("slot-layout")
+		return
+	}
+	if err := n.DeleteTip(false); err != nil {
+		k.Inconclusive("tiebreak-setup")
+		return
+	}
+	var stxs []*blockchain.Transaction
+	for j := 1 + r.Intn(2); j > 0; j-- {
+		stxs = append(stxs, n.NewTx(n.Universe[r.Intn(len(n.Universe))], uint64(9000+j), 5000, node.TxVerifyOK, node.TxExecOK, r.Intn(20)))
+	}
+	sib, err := n.NextBlock(node.BlockOpts{SlotsAhead: 2, Txs: stxs, Directive: &node.Directive{Salt: 77}})
+	if err != nil {
+		k.Inconclusive("tiebreak-sibling:" + err.Error())
+		return
+	}
+	if err := n.Apply(node.CloneBlock(tip)); err != nil {
+		k.Inconclusive("tiebreak-reapply")
+		return
+	}
+	key := genKey(n, sib)
+	type tm struct {
+		class  string
+		static bool // refused by Block.Validate, i.e. before the tip is touched
+		f      func(b *blockchain.Block)
+	}
+	all := []tm{
+		{"root-mismatch:transactionRoot", true, func(b *blockchain.Block) { b.Header.TransactionRoot = flip(b.Header.TransactionRoot, r.Intn(256)); reseal(n, b, key) }},
+		{"root-mismatch:assetRoot", true, func(b *blockchain.Block) { b.Header.AssetRoot = flip(b.Header.AssetRoot, r.Intn(256)); reseal(n, b, key) }},
+		{"payload:transaction-dropped-root-unchanged", true, func(b *blockchain.Block) { b.Transactions = b.Transactions[1:] }},
+		{"payload:transaction-added-root-unchanged", true, func(b *blockchain.Block) {
+			b.Transactions = append(b.Transactions, n.NewTx(n.Universe[0], 7, 5000, node.TxVerifyOK, node.TxExecOK, 3))
+		}},
+		{"payload:statically-invalid-transaction:signature-length-63", true, func(b *blockchain.Block) {
+			tx := n.NewTx(n.Universe[2%len(n.Universe)], 3, 7000, node.TxVerifyOK, node.TxExecOK, 2)
+			tx.Signatures = []codec.Hex{tx.Signatures[0][:63]}
+			tx.Init()
+			b.Transactions = append(b.Transactions, tx)
+			fixTxRoot(b)
+			reseal(n, b, key)
+		}},
+		{"assets:unsorted", true, func(b *blockchain.Block) {
+			b.Assets = []*blockchain.BlockAsset{{Module: "zz", Data: []byte{1}}, {Module: "aa", Data: []byte{2}}}
+			b.Header.AssetRoot = blockchain.BlockAssets(b.Assets).GetRoot()
+			reseal(n, b, key)
+		}},
+		{"signature:bit-flip", false, func(b *blockchain.Block) { b.Header.Signature = flip(b.Header.Signature, r.Intn(512)); b.Header.Init() }},
+	}
+	n.TakeEvents()
+	for _, m := range all {
+		blk := node.CloneBlock(sib)
+		m.f(blk)
+		late := time.Unix(int64(tip.Header.Timestamp)+int64(cfg.BlockTime)+1, 0) // tip received outside its own slot
+		n.Exec.VerifSetLastBlockReceived(&late)
+		before := take(n)
+		k.Eval(1)
+		perr := n.Apply(blk)
+		after := take(n)
+		evs := n.TakeEvents()
+		k.Count("mutants_tiebreak", 1)
+		wit := map[string]any{"rule": m.class, "path": "process/tie-break", "state_height": before.height, "tip": node.DescribeBlock(tip), "block": node.DescribeBlock(blk), "error": fmt.Sprint(perr)}
+		if bytes.Equal(after.tipID, blk.Header.ID) {
+			k.Violation("accepted:"+m.class+":tie-break", "block violating rule '"+m.class+"' replaced the tip in a tie-break", wit)
+			return
+		}
+		k.Nontrivial(m.class + "|tie-break|" + errClass(perr))
+		bad := false
+		if !bytes.Equal(after.tipID, before.tipID) {
+			wit["height_after"] = after.height
+			k.Violation("side-effect:tip:"+m.class+":tie-break", "a refused tie-break block removed the current tip", wit)
+			bad = true
+		} else if after.hash != before.hash {
+			wit["db_diff"] = node.Diff(before.dump, after.dump, nil)
+			k.Violation("side-effect:db:"+m.class+":tie-break", "rejected block changed the blockchain database", wit)
+		}
+		if after.app != before.app {
+			wit["app_before"], wit["app_after"] = before.app, after.app
+			k.Violation("side-effect:application-state:"+m.class+":tie-break", "rejected block changed the application state", wit)
+			bad = true
+		}
+		// LIP-0014 tie-break: the tip is reverted before the candidate is verified and re-applied
+		// when the candidate fails; that delete/new pair of the tip is the specified behaviour
+		// and is not judged. A candidate failing the static rules is refused before that.
+		if m.static && len(evs) != 0 {
+			wit["events"] = len(evs)
+			k.Violation("side-effect:events:"+m.class+":tie-break", "rejected block caused chain events to be emitted", wit)
+		}
+		if after.final != before.final {
+			k.Violation("side-effect:finalized-height:"+m.class+":tie-break", "rejected block changed the finalized height", wit)
+		}
+		if bad {
+			return
+		}
+	}
+	// the untouched sibling wins the tie-break (sanity of the layout, not a verdict)
+	late := time.Unix(int64(tip.Header.Timestamp)+int64(cfg.BlockTime)+1, 0)
+	n.Exec.VerifSetLastBlockReceived(&late)
+	if err := n.Apply(node.CloneBlock(sib)); err == nil && bytes.Equal(n.Tip().Header.ID, sib.Header.ID) {
+		k.Count("tiebreak_valid_sibling_switched", 1)
+	} else {
+		k.Count("tiebreak_valid_sibling_kept", 1)
+		k.Inconclusive("tiebreak-valid-sibling-not-adopted")
+	}
+}
+
 func main() {
 	mon.Main(mon.Options{
 		Property: "C03", Level: "exploration",
@@ -411,6 +558,7 @@ func main() {
 			"block slots of the harness lie ~1e7 s in the past, so time.Now() in verifyBlock only matters for the future-slot mutant",
 		},
 	}, func(c *mon.Ctx) {
+		c.Cases("tiebreak", c.N(160, 2400), tieBreakCase)
 		states := c.N(960, 16000)
 		c.Cases("state", states, func(k *mon.Case) {
 			r := k.R
